@@ -12,6 +12,11 @@ def mostNeg (q : QRec) (v : Rat) : Bool :=
   | 3 => decide (v = -1)
   | _ => false
 
+def qkerasOfJson (j : Json) : Except String QKerasQ := do
+  pure { cls := ← getStr j "cls", bits := ← getInt j "bits", integer := ← getInt j "integer",
+         keepNegative := ← getBool j "keep_negative", use01 := ← getBool j "use_01",
+         negSlopeNonzero := ← getBool j "neg_slope_nonzero", maxValue := ← getOptRat j "max_value" }
+
 def handle (j : Json) : Except String Json := do
   let op ← getStr j "op"
   match op with
@@ -55,6 +60,34 @@ def handle (j : Json) : Except String Json := do
           bad := some (a, b)
     pure <| Json.mkObj [("pairs", Json.num (n : Int)), ("zero_product", Json.bool zeroSeen),
       ("bad", match bad with | none => Json.null | some (a, b) => Json.arr #[ratToJson a, ratToJson b])]
+  | "reconvert" =>
+    -- a history of conversions on ONE impl object of the class paired with `cls`: the record after
+    -- every step (`convertOnto` folded from the constructor state) and the fresh conversion of that step
+    let cls ← getStr j "cls"
+    let hs ← (← (← j.getObjVal? "history").getArr?).toList.mapM qkerasOfJson
+    let mut cur : Option QRec := freshOf cls
+    let mut states : Array Json := #[]
+    let mut fresh : Array Json := #[]
+    for q in hs do
+      cur := match cur with
+        | some r => if q.cls = cls then convertOnto r q else none
+        | none => none
+      states := states.push (match cur with | some r => qrecToJson r | none => Json.null)
+      fresh := fresh.push (match ofQuantizer q with | some r => qrecToJson r | none => Json.null)
+    pure <| Json.mkObj [("states", Json.arr states), ("fresh", Json.arr fresh)]
+  | "member" =>
+    -- which of the candidate values belong to the (non-float) operand type `q` (sampling device of the
+    -- float-cell clause: the factors offered to a floating operand)
+    let q ← qrecOfJson (← j.getObjVal? "q")
+    let vs ← getRatList j "vals"
+    pure <| Json.mkObj [("in", Json.arr (vs.map (fun v => Json.bool (valB q v))).toArray)]
+  | "floatval" =>
+    -- `ValFloat bits` (IEEE interchange format of that width) on a list of values; the harness compares
+    -- the answers with numpy's casts, which ties the value-set model of Props.C16 to real IEEE types
+    let bits ← getInt j "bits"
+    let vs ← getRatList j "vals"
+    pure <| Json.mkObj [("known_width", Json.bool (floatFmt bits).isSome),
+                        ("in", Json.arr (vs.map (fun v => Json.bool (valFloatB bits v))).toArray)]
   | _ => throw s!"unknown op {op}"
 
 def main : IO Unit := lineLoop handle
